@@ -64,6 +64,8 @@ Definition set_allow (s : nnode) (f : N -> bool) : nnode :=
   mkNN (mkNV (slots (nmem s)) (hwm (nmem s)) f (ninv (nmem s)))
        (mkND (d_hwm (ndsk s)) (d_ninv (ndsk s)) f (d_chan (ndsk s)) (d_forgot (ndsk s))).
 
+Definition MAX_INV : N := 4.
+
 Definition nstep (s : nnode) (o : nop) : nnode * bool :=
   match o with
   | NewChannel d =>
@@ -95,6 +97,9 @@ Definition nstep (s : nnode) (o : nop) : nnode * bool :=
   | RemoveAllow k p => if p then (set_allow s (updk (allow (nmem s)) k false), true) else (s, false)
   | SetAllow k p => if p then (set_allow s (fun x => x =? k), true) else (s, false)
   | AddInvoice =>
+      (* Node::add_keysend with a new hash: refused, before anything is counted, when the
+         approvals table is full (policy.max_invoices, set to [MAX_INV] by the harness) *)
+      if MAX_INV <=? ninv (nmem s) then (s, false) else
       (mkNN (mkNV (slots (nmem s)) (hwm (nmem s)) (allow (nmem s)) (ninv (nmem s) + 1))
             (mkND (d_hwm (ndsk s)) (ninv (nmem s) + 1) (d_allow (ndsk s)) (d_chan (ndsk s)) (d_forgot (ndsk s))),
        true)
